@@ -335,6 +335,19 @@ def getslice(interp, obj, lo, hi):
             xt = interp.int_term(x)
             xt = z3.If(xt < 0, z3.If(xt + ln < 0, z3.IntVal(0), xt + ln), z3.If(xt > ln, ln, xt))
             return xt
+        # structural case: text is a concatenation and the slice boundary falls between two pieces
+        from .strings import flatten_concat, concat
+        parts = flatten_concat(simp(t))
+        if len(parts) >= 2 and (lo is None or hi is None):
+            bound = hi if lo is None else lo
+            if interp.tag(bound) in ("vint", "vbool"):
+                bt = interp.int_term(bound)
+                acc = z3.IntVal(0)
+                for cut in range(1, len(parts)):
+                    acc = simp(acc + z3.Length(parts[cut - 1]))
+                    if interp.ctx.entails(z3.And(bt == acc, bt >= 0)):
+                        piece = parts[:cut] if lo is None else parts[cut:]
+                        return interp.mk(tg, simp(concat(piece)))
         a = norm(lo, z3.IntVal(0))
         b = norm(hi, ln)
         r = z3.SubString(t, a, z3.If(b - a < 0, z3.IntVal(0), b - a))
